@@ -13,7 +13,7 @@ from gens import atoms_of, base_cells, make_supercell, tables
 from permcorr import fake_cutoff, impl_cpt_labels, random_near
 from reference import atom_perm_by_matching, min_image_distances, projector_onto_admissible
 
-UNITS = ["Tables", "IndepGen", "ShapesCombos", "ShapesO1", "ShapesBasis", "ShapesPerm", "ShapesAuxO1", "SkelBasis", "SkelPerm", "SkelIdx"]
+UNITS = ["Tables", "IndepGen", "ShapesCombos", "ShapesO1", "ShapesBasis", "ShapesPerm", "ShapesAuxO1", "SkelBasis", "SkelPerm", "SkelIdx", "ShapesCoset", "ShapesSumRule", "ShapesSpg", "ShapesReps", "EigStruct", "ShapesAuxEig", "SkelSpg", "SkelEig", "SkelMat", "CutoffGen", "ShapesGeom", "ShapesAuxCut", "SkelCut"]
 PROPS = ["props/C04.v", "props/C04_span.v"]
 ASSUMPTIONS = ["eigenvalue selection (np.isclose to 1, 1e-8 window) is C15's subject; the reference null space uses a 1e-9 relative threshold"]
 
@@ -117,6 +117,14 @@ def check(ctx):
                 sh_ = [0] + list(1 + np.random.default_rng(ctx.seed + 11).permutation(len(rots_) - 1))
                 listings += [("explicit-rotation-major", {"rotations": rots_[rm_], "translations": trans_[rm_]}, None),
                              ("explicit-shuffled", {"rotations": rots_[sh_], "translations": trans_[sh_]}, None)]
+            # the whole group with the identity somewhere in the middle of the list (the property's quantifier says "supplied by the
+            # caller", not "identity first"): an operation with a rotation part first
+            nonid_ = [i_ for i_ in range(len(rots_)) if not (rots_[i_] == np.eye(3, dtype=int)).all()]
+            if nonid_ and order <= 3:
+                f_ = nonid_[int(np.random.default_rng(ctx.seed + 12).integers(len(nonid_)))]
+                rest_ = [i_ for i_ in np.random.default_rng(ctx.seed + 13).permutation(len(rots_)) if i_ != f_]
+                inf_ = [f_] + [int(i_) for i_ in rest_]
+                listings.append(("explicit-identity-not-first", {"rotations": rots_[inf_], "translations": trans_[inf_]}, None))
             # a proper subgroup handed over by the caller (proper rotations only, or the pure translations only): the admissible
             # space is the one of THAT group, which is larger
             subgroup_idx = {}
@@ -135,6 +143,11 @@ def check(ctx):
                     o = Symfc(at, spacegroup_operations=sgops, cutoff=None if cut is None else {order: cut}).compute_basis_set(orders=[order])
                 except (IndexError, ValueError):
                     ctx.count("implementation-raised-on-degenerate-cutoff")
+                    continue
+                except AssertionError:
+                    if lname != "explicit-identity-not-first":
+                        raise
+                    ctx.count("listing-rejected-by-assertion")      # refused loudly: no result, no violation
                     continue
                 b = o.basis_set[order]
                 F = np.asarray(b.compression_matrix @ b.basis_set)
